@@ -18,6 +18,6 @@ SPEC = dict(
             "ObservedPointFitter returns; the returned states are decided by the exact-rational contract acceptAsm (proved "
             "sound) and the implementation-side predicates; 'goal no worse than at the start' is a theorem for assemble() "
             "from a feasible start and only measured for track() (no revert rule in the code); 'exact goals reach zero' uses "
-            "1e-9 (accuracy 1e-6) / 1e-4 (default accuracy 1e-3); LocalEnergyMinimizer is covered by its predicate only",
+            "1e-7 (accuracy 1e-6) / 1e-4 (default accuracy 1e-3) and is claimed for starts within 0.12 of the reachable configuration; LocalEnergyMinimizer is covered by its predicate only",
     assumptions=["libm sqrt/acos are trusted (rotation-error angles are exported by the harness from Rotation::convertRotationToAngleAxis)"],
 )
